@@ -92,6 +92,10 @@ func runC13(c *mon.Ctx) {
 			}
 		}
 	}
+	// shapes in which two tree-hash subtrees share a tile (the tile planned next is only reachable through
+	// its parent) — the old head's hashes then live in exactly that tile
+	special := []triple{{16, 19, 23}, {16, 19, 22}, {17, 19, 23}, {12, 15, 23}, {4, 7, 11}, {64, 67, 71}}
+	triples = append(triples, special...)
 	if !c.Quick() {
 		// sampled larger triples
 		gr := c.GlobalRng("big-triples")
@@ -119,7 +123,12 @@ func runC13(c *mon.Ctx) {
 					if c.Quick() && (t.a+t.b+h)%3 != map[string]int{"all": 0, "alternate": 1, "last-only": 2}[warm] && t.a > 3 {
 						continue
 					}
-					c13Sequential(c, A, B, t.p, t.a, t.b, h, long, warm)
+					c13Sequential(c, A, B, t.p, t.a, t.b, h, long, warm, false)
+					if t.a > t.p && t.b > t.p && t.b >= t.a {
+						// the forking server answers tile requests with the OTHER branch's tile wherever that
+						// branch has a tile of the same coordinates (it may pick per coordinate)
+						c13Sequential(c, A, B, t.p, t.a, t.b, h, long, warm, true)
+					}
 				}
 			}
 			if t.a > t.p && t.b > t.p {
@@ -290,8 +299,8 @@ func c13Drain(c *mon.Ctx, caseID string, w *world.World, info map[string]any) {
 	}
 }
 
-func c13Sequential(c *mon.Ctx, A, B *world.Log, p, a, b, h int, long bool, warm string) {
-	caseID := fmt.Sprintf("seq:p%d:a%d:b%d:h%d:long=%t:%s", p, a, b, h, long, warm)
+func c13Sequential(c *mon.Ctx, A, B *world.Log, p, a, b, h int, long bool, warm string, mixTiles bool) {
+	caseID := fmt.Sprintf("seq:p%d:a%d:b%d:h%d:long=%t:%s:mix=%t", p, a, b, h, long, warm, mixTiles)
 	if !c.Want(caseID) {
 		return
 	}
@@ -300,7 +309,26 @@ func c13Sequential(c *mon.Ctx, A, B *world.Log, p, a, b, h int, long bool, warm 
 	info := map[string]any{"p": p, "a": a, "b": b, "h": h, "long_lived": long, "warm": warm}
 	w := world.New(c01Name, A.Key, A, B)
 	cur, size := A, a
+	mixing := false
 	w.Remote = func(cl int, path string) ([]byte, error) {
+		if mixing && strings.HasPrefix(path, "/tile/") {
+			// per hash slot: the other branch's hash wherever that branch has the complete subtree
+			if t, ok := refmerkle.ParseTilePath(path[1:]); ok && t.L >= 0 && refmerkle.TileExists(t, int64(b)) {
+				lvl := uint(t.H * t.L)
+				out := make([]byte, 0, 32*t.W)
+				for i := 0; i < t.W; i++ {
+					off := t.N<<uint(t.H) + int64(i)
+					var hsh [32]byte
+					if (off+1)<<lvl <= int64(a) {
+						hsh = A.M.Subtree(int(lvl), off)
+					} else {
+						hsh = B.M.Subtree(int(lvl), off)
+					}
+					out = append(out, hsh[:]...)
+				}
+				return out, nil
+			}
+		}
 		return world.ServeLog(cur, func() int { return size })(cl, path)
 	}
 	nextID := 1
@@ -332,6 +360,7 @@ func c13Sequential(c *mon.Ctx, A, B *world.Log, p, a, b, h int, long bool, warm 
 	}
 	// phase 2: the server now presents branch B at size b
 	cur, size = B, b
+	mixing = mixTiles
 	order := r.Perm(b)
 	for _, id := range order {
 		if !long {
@@ -351,6 +380,7 @@ func c13Sequential(c *mon.Ctx, A, B *world.Log, p, a, b, h int, long bool, warm 
 		c.Class("scenario:restart-with-failed-config-read")
 	}
 	// phase 3: back to A (possibly grown view of the same branch)
+	mixing = false
 	cur, size = A, a
 	for k := 0; k < 2 && a > 0; k++ {
 		id := r.IntN(a)
